@@ -2,7 +2,7 @@
 (***************************************************************************)
 (* Validation of recorded executions of the TTP objectives and the game    *)
 (* encoding against TTP.tla.  Prop selects the property:                   *)
-(*  "C07": [cfg, ub, plans: << [plan, errors] >>]                          *)
+(*  "C07": [cfg, ub, plans: << [plan, errors] >>, dom: << [plan, foreign, accepted] >> (optional)] *)
 (*  "C08": [M, lb, ub, opt, plans: << [plan, length, byes: <<[d,t,length]>>] >>] *)
 (*         opt = -1 (unknown) or the published optimum; if given, the plans *)
 (*         of the case must be ALL error-free plans (checked feasible here) *)
@@ -36,7 +36,18 @@ ErrClauses(cfg, ub, e) ==
     \cup (IF Consistent(plan) /\ DocUnambiguous(plan, cfg)
              /\ e.errors # DocErrors(plan, cfg, TRUE) /\ e.errors # DocErrors(plan, cfg, FALSE)
           THEN {"count-not-documented"} ELSE {})
+\* The domain of the property is "all plans accepted by the game-plan space": the space must accept exactly the
+\* arrays of the instance's shape whose entries lie in -n..n (and that belong to the instance and have its dtype:
+\* "foreign" = 1 marks an array that does not).  dom: << [plan, foreign, accepted] >>.
+DomClause(cfg, e) ==
+  LET inDom == e.foreign = 0 /\ Len(e.plan) > 0 /\ WellShaped(e.plan, cfg) IN
+  IF inDom /\ e.accepted = 0 THEN {"space-rejects-plan-of-the-domain"}
+  ELSE IF ~inDom /\ e.accepted = 1
+       THEN {IF e.foreign = 1 THEN "space-accepts-foreign-array" ELSE "space-accepts-plan-outside-domain"}
+  ELSE {}
+Dom(c) == IF "dom" \in DOMAIN c THEN c.dom ELSE <<>>
 VerdictC07(c) == UNION {ErrClauses(c.cfg, c.ub, c.plans[i]) : i \in 1..Len(c.plans)}
+                 \cup UNION {DomClause(c.cfg, Dom(c)[i]) : i \in 1..Len(Dom(c))}
 
 \* ---------------------------------------------------------------- C08
 LenClause(c, e) ==
